@@ -366,6 +366,40 @@ def scen_order(flavour, n_nodes, max_edges, methods, kinds=('pre', 'post'), mode
                             yield (flavour, 'order-' + kind, mode, method), with_step(b, 'order', spec, {'seq': seq})
 
 
+def large_shapes(count=40, n=12, extra=7, seed=20261005):
+    """SAMPLED, not exhaustive: pseudo-random bushy graphs on n nodes (a random tree rooted at 0 whose nodes get up to four
+    children, plus `extra` random edges).  They exist for size thresholds inside the implementation (small-buffer
+    spills, capacity steps) that no graph within the exhaustive bounds can reach.  Fixed seed: the same shapes every run."""
+    import random
+    rnd = random.Random(seed)
+    out = []
+    for _ in range(count):
+        seq = []
+        kids = {0: 0}
+        for v in range(1, n):
+            cands = [u for u in range(v) if kids.get(u, 0) < 4]
+            u = rnd.choice(cands[:3] if rnd.random() < 0.6 else cands)       # favour shallow parents: wide levels
+            kids[u] = kids.get(u, 0) + 1
+            kids[v] = 0
+            seq.append((u, v))
+        for _ in range(extra):
+            u, v = rnd.randrange(n), rnd.randrange(n)
+            seq.append((u, v))
+        rnd.shuffle(seq)
+        out.append(seq)
+    return out
+
+
+def scen_large(flavour, alg, modes=('path',)):
+    for seq in large_shapes():
+        n = 12
+        b = base(flavour, n, seq)
+        for mode in modes:
+            for tgt in range(1, n):
+                spec = {'alg': alg, 'root': 0, 'target': tgt, 'mode': mode, 'method': 'none', 'transpose': False}
+                yield (flavour, alg, 'large-sampled', 'none'), with_step(b, 'search', spec, {'seq': seq})
+
+
 def single_reject(items):
     """variants of unfiltered items in which a pure filter rejects exactly one edge of the graph (no branching:
     scales to larger graphs than the fully free filter)"""
@@ -424,12 +458,14 @@ def items_for(prop, tier):
             items += scen_target(fl, 'bfs', n, mf, ('filter',))
             items += with_repeat(scen_target(fl, 'bfs', n, 2, ('none', 'filter')))
             items += reordered(scen_target(fl, 'bfs', n, 2, ('filter',)))
+            items += scen_large(fl, 'bfs')
     elif prop == 'C05':
         for fl in FLAVOURS:
             items += scen_target(fl, 'dfs', n, m, ('none',))
             items += scen_target(fl, 'dfs', n, mf, ('filter',))
             items += with_repeat(scen_target(fl, 'dfs', n, 2, ('none', 'filter')))
             items += reordered(scen_target(fl, 'dfs', n, 2, ('filter',)))
+            items += scen_large(fl, 'dfs')
     elif prop == 'C06':
         for fl in FLAVOURS:
             items += scen_target(fl, 'pfs', n, mf, ('filter',), prios=('min', 'max'))
@@ -519,7 +555,8 @@ def run(prop, tier, seed):
         bounds={'nodes': 3, 'max_edges_unfiltered': 3 if tier == 'quick' else 4, 'max_edges_filtered': 3,
                 'extra_families': ('C10: 4 nodes / <=4 edges unfiltered node orders (quick: simple digraphs only); ' if prop == 'C10' else '') + ('thorough: 4 nodes <=4 edges unfiltered; 5 nodes <=5 edges simple digraphs unfiltered; bfs with free filter on simple 4-node graphs (<=4 edges paths, <=5 edges cycles, directed); single-rejected-edge filters on simple 4-node graphs with 5 (paths) and 5-6 (cycles) edges, directed' if tier == 'thorough' else ''),
                 'symbolic': 'edge values, node values (pfs), filter = uninterpreted F(u,v,e) split on every examined edge',
-                'outside': 'larger graphs; impure filters; node values changing during a search'},
+                'sampled_large_graphs': 'C04/C05 additionally run 40 fixed pseudo-random 12-node graphs (19 edges, root 0, every target, unfiltered): SAMPLED, not exhaustive - they exist for size thresholds inside the implementation that no graph within the exhaustive bounds can reach',
+                'outside': 'larger graphs (beyond the sampled family above); impure filters; node values changing during a search'},
         assumptions=['std models of engine A incl. AHashSet (association list), VecDeque, BinaryHeap (std sift-up / sift-down-to-bottom), validated differentially on every run',
                      'rustc MIR dump is what gets compiled', 'filters are pure functions of (source key, target key, value)',
                      'keys are distinct concrete integers; relabelling invariance'],
